@@ -30,8 +30,64 @@ GC_EVERY = 20
 
 def configs(tier, seed):
     n = 2000 if tier == 'quick' else 16000
-    return [{'name': impl + '-cache', 'impl': impl, 'mode': 'hyp', 'n': n}
-            for impl in ('c', 'py')]
+    out = [{'name': impl + '-cache', 'impl': impl, 'mode': 'hyp', 'n': n}
+           for impl in ('c', 'py')]
+    # complete sweep: entry point x chain flavours x kind of change, the
+    # warmed entry point being the first thing the registry serves afterwards
+    out += [{'name': impl + '-firstcall', 'impl': impl, 'mode': 'enum',
+             'no_regress': True} for impl in ('c', 'py')]
+    return out
+
+
+def coverage_extra(tier):
+    return {'partitions': {
+        'first call after a change: 9 entry points x 4 registry chains x 2 '
+        'looked-up registries x 14 kinds of change': {'exhaustive': True}}}
+
+
+SWEEP_CHANGES = [
+    [['treg', 0, 0, 0, 0, False]],          # in the looked-up registry
+    [['treg', 1, 0, 0, 0, False]],          # in its first base
+    [['treg', 2, 0, 0, 0, False]],          # at the top
+    [['treg', 2, 0, 1, 1, False]],          # for a more specific key
+    [['unreg', 0]],
+    [['tsub', 1, 0, 0, False]],
+    [['unsub', 0, True]],
+    [['unsub', 0, False]],
+    [['rebuild', 0], ['treg', 2, 0, 0, 0, False]],
+    [['burst', 0, 1, 0, 0, True]],
+    [['rbases', 1, []]],
+    [['ibases', 1, [], False]],
+    [['conly', 1, []]],
+    [['dprov', 0, [1]], ['cimpl', 0, [1]]],
+]
+
+
+def enumerate_cases(cfg):
+    chains = [['plain', 'plain', 'plain'], ['plain', 'verifying', 'verifying'],
+              ['plain', 'plain', 'verifying'],
+              ['verifying', 'verifying', 'verifying']]
+    for flav in chains:
+        bp = {'ibases': [[], [0]],
+              'classes': [{'bases': [], 'implements': [0], 'only': False},
+                          {'bases': [0], 'implements': [1], 'only': False}],
+              'insts': [{'cls': 1, 'direct': []}],
+              'pbases': [[], [0]],
+              'regs': [{'bases': [], 'flavour': flav[0]},
+                       {'bases': [0], 'flavour': flav[1]},
+                       {'bases': [1], 'flavour': flav[2]}]}
+        for entry in ENTRY:
+            for r in (2, 1):
+                for change in SWEEP_CHANGES:
+                    ops = [['reg', 0, [['I', 0]], 0, '', False],
+                           ['reg', 0, [['I', 1]], 1, '', False],
+                           ['sub', 0, [['I', 0]], 0, False],
+                           ['sub', 1, [['I', 0]], 0, False],
+                           ['query', entry, r, [['o', 0]], 0, ''],
+                           ['query', entry, r, [['o', 0]], 0, '']]
+                    ops += change
+                    yield {'bp': bp, 'ops': ops, 'checks': [True],
+                           'last_first': True}
 
 
 def objref():
@@ -283,7 +339,7 @@ def run_case(case, cfg, out):
     def recheck(stage, rot=0, subset=False):
         twin = build_twin()
         keys = queried[-30:]
-        if rot % 2:
+        if rot % 2 or case.get('last_first'):
             # the key queried last goes first: the first lookup a registry
             # serves after a mutation is the one that has to notice it
             # (a later one finds the caches already dropped)
